@@ -221,3 +221,249 @@ def findRes : List Res → Bytes → Nat → Option (Nat × Res)
   | r :: rs, p, i => if r.path = p then some (i, r) else findRes rs p (i + 1)
 
 end Coap.Server
+
+/-! ## S -/
+namespace Coap.Server.S
+open Coap.Server
+
+/-- the bytes a reconstructed path / query string leaves unescaped.  RFC 3986 fixes what MUST be escaped
+(`Esc.legal`); inside that the implementation chooses (it may escape more, e.g. `&` inside a query value). -/
+structure Esc where
+  path : List (Nat × Nat)
+  query : List (Nat × Nat)
+
+/-- RFC 3986 §3.3 pchar without pct-encoded: unreserved / sub-delims / ":" / "@" -/
+def pchar (c : Nat) : Bool :=
+  (65 ≤ c && c ≤ 90) || (97 ≤ c && c ≤ 122) || (48 ≤ c && c ≤ 57) ||
+  [45, 46, 95, 126, 33, 36, 38, 39, 40, 41, 42, 43, 44, 59, 61, 58, 64].contains c
+/-- RFC 3986 §3.4 query = *( pchar / "/" / "?" ) -/
+def qchar (c : Nat) : Bool := pchar c || c == 47 || c == 63
+
+def Esc.legal (e : Esc) : Prop := ∀ c, c < 256 → (inIvs e.path c = true → pchar c = true) ∧ (inIvs e.query c = true → qchar c = true)
+
+/-- RFC 7252 §5.10.1: the path is the Uri-Path values, percent-encoded, joined by "/" -/
+def uriPath (e : Esc) (os : Opts) : Bytes := joinWith 47 ((os.filter fun o => o.1 == 11).map fun o => pctEncode e.path o.2)
+def uriQuery (e : Esc) (os : Opts) : Bytes := joinWith 38 ((os.filter fun o => o.1 == 15).map fun o => pctEncode e.query o.2)
+
+/-- RFC 7252 §12.1.1: classes 0 (requests / Empty), 2, 3, 4, 5; 7.xx only exists on reliable transports (RFC 8323) -/
+def validCode (c : Nat) : Bool := decide (c ≤ 31) || (decide (64 ≤ c) && decide (c ≤ 191))
+
+/-- D2 -/
+def recognisedCritical : List Nat := [1, 3, 5, 7, 11, 15, 17, 23, 27, 35, 39]
+/-- RFC 7252 Table 4 (no "R"), RFC 7641, 7959, 7967, 8613, 8768, 9175: options defined as non-repeatable -/
+def nonRepeatable : List Nat := [3, 5, 6, 7, 9, 12, 14, 16, 17, 23, 27, 28, 35, 39, 60, 252, 258]
+
+def recognised (cfg : Cfg) (n : Nat) : Bool :=
+  n != 19 && n != 31 && (recognisedCritical.contains n || cfg.known.contains n)
+
+/-- D3: unrecognised, critical, Safe-to-Forward, in a request for a proxy that exists -/
+def tolerated (cfg : Cfg) (fwd : Bool) (n : Nat) : Bool :=
+  n % 2 == 1 && !recognised cfg n && n != 19 && n != 31 && (n / 2 % 2 == 0 && fwd)
+
+def unknownCritical (cfg : Cfg) (fwd : Bool) (n : Nat) : Bool :=
+  n % 2 == 1 && !recognised cfg n && !tolerated cfg fwd n
+
+/-- RFC 7252 §5.4.5: a second instance of an option that is not repeatable (options arrive sorted by number) -/
+def repeatFrom : Option Nat → List Nat → Bool
+  | _, [] => false
+  | last, n :: r => (last == some n && nonRepeatable.contains n) || repeatFrom (some n) r
+
+def badOption (cfg : Cfg) (fwd : Bool) (os : Opts) : Bool :=
+  (os.map (·.1)).any (unknownCritical cfg fwd) || repeatFrom none (os.map (·.1))
+
+def respType (reqType : Nat) : Nat := if reqType = CON then ACK else NON
+
+/-- library-generated message: only type, code, message id and token are prescribed (D4) -/
+def lib (type code mid : Nat) (token : Bytes) : Reply := ⟨.lib, type, code, mid, token, [], .bytes []⟩
+def errReply (m : Msg) (code : Nat) : Reply := lib (respType m.type) code m.mid m.token
+
+/-! ### request view (D7) -/
+def minimalUint : (fuel : Nat) → Nat → Bytes
+  | 0, _ => []
+  | f + 1, v => if v = 0 then [] else minimalUint f (v / 256) ++ [UInt8.ofNat (v % 256)]
+
+def lastByte (b : Bytes) : Nat := match b.getLast? with | some x => x.toNat | none => 0
+/-- RFC 7959 §2.2 on a datagram transport (SZX 7 is reserved there): NUM, M, SZX -/
+def block (v : Bytes) : Option (Nat × Bool × Nat) :=
+  if lastByte v % 8 = 7 then none else some (uintOf v / 16, lastByte v / 8 % 2 == 1, lastByte v % 8)
+
+def clearBlock2M : Opts → Opts
+  | [] => []
+  | (n, v) :: r =>
+    if n = 23 then
+      match block v with
+      | some (num, true, szx) => (23, minimalUint 4 (num * 16 + szx)) :: r
+      | _ => (n, v) :: r
+    else (n, v) :: clearBlock2M r
+
+def setHop (h : Nat) : Opts → Opts
+  | [] => []
+  | (n, v) :: r => if n = 16 then (16, minimalUint 8 h) :: r else (n, v) :: setHop h r
+
+/-! ### RFC 7967 + multicast suppression (D6) -/
+/-- No-Response: some true = "not interested in this class", some false = "interested", none = no option -/
+def noResponseSays (rq : Request) (cls : Nat) : Option Bool :=
+  (firstOpt rq.msg.opts 258).map fun v => decide ((2 ^ (cls - 1)) &&& (uintOf v % 4294967296) > 0)
+
+def mcastSuppressed (cfg : Cfg) (rq : Request) (resFlags : Option Nat) (r : Reply) : Bool :=
+  let cls := codeClass r.code
+  rq.mcast &&
+  (match resFlags with
+   | some fl =>
+     if cfg.mpr then
+       (flag fl F_SUPPRESS_2_XX && cls == 2) ||
+       (!(flag fl F_SUPPRESS_2_XX && cls == 2) && flag fl F_SUPPRESS_2_05 && r.code == 69 && r.body == .bytes []) ||
+       (!(flag fl F_SUPPRESS_2_05 && r.code == 69) && !flag fl F_DIS_SUPPRESS_4_XX && cls == 4) ||
+       (!(flag fl F_SUPPRESS_2_05 && r.code == 69) && !flag fl F_DIS_SUPPRESS_5_XX && cls == 5)
+     else decide (cls > 2)
+   | none => decide (cls > 2))
+
+def emptied (r : Reply) : Reply := { r with code := 0, token := [], opts := [], body := .bytes [] }
+
+/-- what is sent for the response `r` prepared for request `rq` -/
+def deliver (cfg : Cfg) (rq : Request) (resFlags : Option Nat) (observe : Bool) (r : Reply) : List Reply :=
+  let cls := codeClass r.code
+  -- RFC 7641: Observe only in 2.xx
+  let strip (x : Reply) : Reply := if codeClass x.code ≠ 2 ∧ observe then { x with opts := x.opts.filter (·.1 != 6) } else x
+  if cls = 0 then
+    -- nothing was set: a Confirmable request still gets its (empty) ACK, a Non-confirmable one nothing
+    if r.code = 0 ∧ r.type = NON then []
+    else [let x := strip r; if x.type = ACK ∧ x.code = 0 then emptied x else x]
+  else
+    match noResponseSays rq cls with
+    | some true => if r.type = ACK then [emptied r] else []
+    | some false => [strip r]
+    | none => if mcastSuppressed cfg rq resFlags r then [] else [strip r]
+
+/-! ### stages of request processing -/
+inductive Pre where
+  | fail (code : Nat) (fl : Option Nat)
+  | ignore
+  | go (isProxy : Bool) (os : Opts) (path : Bytes)
+  deriving DecidableEq, Repr
+
+/-- the host a proxy request names: Proxy-Uri's authority (oracle) or Uri-Host -/
+def proxyHost (rq : Request) (os : Opts) : Option Bytes :=
+  if hasOpt os 35 then (match rq.pu with | .ok h _ => some h | _ => none) else some ((firstOpt os 3).getD [])
+
+/-- RFC 7252 §5.7.2 (proxy options: 5.05 without proxy support; a request naming this endpoint itself is served
+locally) and RFC 8768 §3 (Hop-Limit 1 → 5.08, 0 → 4.00, else decrement; not for requests served locally as the
+proxy's own). `tol`: an unrecognised critical option was tolerated for forwarding (D3). -/
+def pre (e : Esc) (tbl : Table) (rq : Request) (tol : Bool) (os : Opts) : Pre :=
+  let m := rq.msg
+  if hasOpt os 39 ∧ ¬ hasOpt os 3 then .fail 130 none else
+  let proxyReq : Bool := hasOpt os 39 || hasOpt os 35
+  -- (still a proxy request, served locally as the proxy endpoint's own)
+  let cls : Pre ⊕ (Bool × Bool) :=
+    if proxyReq then
+      match tbl.prx with
+      | none => .inl (.fail 165 none)
+      | some p =>
+        if 1 ≤ m.code ∧ m.code ≤ 7 ∧ ¬ handlerBit p.mask m.code then .inl (.fail 165 none) else
+        match proxyHost rq os with
+        | none => .inl (.fail 165 none)
+        | some h =>
+          if h.length ≠ 0 ∧ (p.name.length = 0 ∨ h = p.name) then
+            if tol then .inl (.fail 130 (some p.flags)) else .inr (false, true)
+          else .inr (true, false)
+    else .inr (false, false)
+  match cls with
+  | .inl f => f
+  | .inr (isProxy, own) =>
+    let hop : Pre ⊕ Opts :=
+      if own then .inr os else
+      match firstOpt os 16 with
+      | none => .inr os
+      | some v =>
+        let h := uintOf v % 4294967296
+        if h = 1 then .inl (.fail 168 none)
+        else if h < 1 ∨ h > 255 then .inl (.fail 128 none)
+        else .inr (setHop (h - 1) os)
+    match hop with
+    | .inl f => f
+    | .inr os =>
+      let path : Option Bytes :=
+        if hasOpt os 35 then (match rq.pu with | .ok _ p => some p | _ => none) else some (uriPath e os)
+      match path with
+      | none => .ignore
+      | some p => .go isProxy os p
+
+/-- resource selection order: exact path → (proxy resource for proxy requests) → unknown handler flagged for
+/.well-known/core → /.well-known/core → unknown handler → DELETE 2.02 → 4.04 -/
+def select (tbl : Table) (code : Nat) (isProxy : Bool) (path : Bytes) : Nat ⊕ Sel :=
+  if isProxy then (match tbl.prx with | some p => .inr (.prx p) | none => .inl 160) else
+  match findRes tbl.res path 0 with
+  | some x => .inr (.res x.1 x.2)
+  | none =>
+    let unkFor : Option Special := tbl.unk.bind fun u => if handlerBit u.mask code then some u else none
+    match unkFor with
+    | some u => if flag u.flags F_HANDLE_WKC then .inr (.unk u) else if path = wellKnownCore then .inr .wk else .inr (.unk u)
+    | none => if path = wellKnownCore then .inr .wk else if code = 4 then .inl 66 else .inl 132
+
+/-- 4.01 OSCORE-only, 4.12 If-None-Match on an existing resource, 4.05 no handler, 4.15 FETCH without Content-Format,
+4.05 resource without multicast support -/
+def precond (cfg : Cfg) (rq : Request) (os : Opts) (sel : Sel) : Option Nat :=
+  if flag sel.flags F_OSCORE_ONLY then some 129
+  else if sel.exists_ ∧ hasOpt os 5 then some 140
+  else if ¬ handlerBit sel.mask rq.msg.code then some 133
+  else if rq.msg.code = 5 ∧ ¬ hasOpt os 12 then some 143
+  else if cfg.mpr ∧ ¬ flag sel.flags F_HAS_MCAST ∧ rq.mcast then some 133
+  else none
+
+/-- the handler registered for `sel` and the method runs once; what it sets is what is sent -/
+def run (e : Esc) (cfg : Cfg) (rq : Request) (os : Opts) (path : Bytes) (sel : Sel) : Outcome :=
+  let m := rq.msg
+  let fl := some sel.flags
+  let resp0 : Reply := ⟨.app, respType m.type, 0, m.mid, m.token, [], .bytes []⟩
+  let observe : Bool := sel.observable && (m.code == 1 || m.code == 5) && hasOpt os 6
+  let establish : Bool := observe && (uintOf ((firstOpt os 6).getD []) % 4294967296 == 0)
+  -- RFC 7641 §3.1 + RFC 7959 §2.4 (libcoap: registration only with block 0)
+  let badBlock : Bool := establish && (match (firstOpt os 23).bind block with | some (num, _, _) => num != 0 | none => false)
+  if badBlock then ⟨true, deliver cfg rq fl observe { resp0 with src := .lib, code := 128 }, none⟩ else
+  let resp1 : Reply := if establish then { resp0 with opts := [(6, [2])] } else resp0
+  let early : Bool := sel.isPrx && m.type == CON          -- D8
+  let pre : List Reply := if early then [lib ACK 0 m.mid []] else []
+  match sel.who with
+  | none => ⟨true, pre ++ deliver cfg rq fl observe { resp1 with code := 69, opts := [(12, [40])], body := .wellknown }, none⟩
+  | some who =>
+    let call : Call := ⟨who, m.code, path, uriQuery e os, os, m.payload⟩
+    let code := if rq.verdict.code = 0 then 0 else rq.verdict.code
+    let r : Reply := { resp1 with code := code, body := .bytes rq.verdict.payload, type := if early then CON else resp1.type }
+    if ¬ validCode code then ⟨true, pre, some call⟩            -- D10
+    else if early ∧ code = 0 then ⟨true, pre, some call⟩
+    else ⟨true, pre ++ deliver cfg rq fl observe r, some call⟩
+
+def handle (e : Esc) (cfg : Cfg) (tbl : Table) (rq : Request) (tol : Bool) : Outcome :=
+  let m := rq.msg
+  if rq.mcast ∧ m.type ≠ NON then Outcome.nothing else       -- D5
+  match pre e tbl rq tol (clearBlock2M m.opts) with
+  | .fail code fl => ⟨true, deliver cfg rq fl false (errReply m code), none⟩
+  | .ignore => Outcome.nothing
+  | .go isProxy os path =>
+    match select tbl m.code isProxy path with
+    | .inl code => ⟨true, deliver cfg rq none false (errReply m code), none⟩
+    | .inr sel =>
+      match precond cfg rq os sel with
+      | some code => ⟨true, deliver cfg rq (some sel.flags) false (errReply m code), none⟩
+      | none => run e cfg rq os path sel
+
+/-- S: the outcome prescribed for one request datagram -/
+def serverSpec (e : Esc) (cfg : Cfg) (tbl : Table) (rq : Request) : Outcome :=
+  let m := rq.msg
+  if ¬ validCode m.code then ⟨true, if m.type = CON then [lib RST 0 m.mid []] else [], none⟩
+  else if ¬ isRequestCode m.code then Outcome.outOfScope
+  else if rq.verdict.code = 168 then Outcome.outOfScope
+  else
+  let fwd : Bool := tbl.prx.isSome && (hasOpt m.opts 35 || hasOpt m.opts 39)
+  if badOption cfg fwd m.opts then
+    if m.type = NON then ⟨true, if rq.mcast then [] else [lib RST 0 m.mid []], none⟩
+    else if m.type = CON then ⟨true, [errReply m 130], none⟩
+    else Outcome.nothing
+  else if hasOpt m.opts 9 then Outcome.outOfScope
+  else if m.type = ACK ∨ m.type = RST then Outcome.nothing
+  else if m.token.length > cfg.mts then
+    if cfg.mts > 8 then ⟨true, [errReply m 128], none⟩
+    else ⟨true, if rq.mcast ∧ m.type = NON then [] else [lib RST 0 m.mid []], none⟩
+  else handle e cfg tbl rq ((m.opts.map (·.1)).any (tolerated cfg fwd))
+
+end Coap.Server.S
